@@ -185,6 +185,10 @@ func Logger() logrus.FieldLogger {
 }
 
 // RunReplay is called from the generated TestZZReplay in each harnessed package.
+// CrashLabel is the label of the implicit assertion of every harness: the code under test
+// does not end in an unrecovered panic (in the node: the process dies).
+const CrashLabel = "crash.unrecovered-panic"
+
 func RunReplay(t *testing.T, harnesses map[string]func()) {
 	load()
 	if os.Getenv("ZZVERIF_REPLAY") == "" {
@@ -211,6 +215,9 @@ func RunReplay(t *testing.T, harnesses map[string]func()) {
 						fmt.Println("REPLAY-CUT " + r.reason)
 					default:
 						fmt.Printf("REPLAY-PANIC %v\n", r)
+						if rf.Label == CrashLabel {
+							Violated = append(Violated, CrashLabel)
+						}
 					}
 				}
 			}()
